@@ -954,9 +954,11 @@ def run(ctx):
     # call histories on freshly imported modules
     depth = 2 if ctx.quick else 3
     mF = ctx.pmap(eval_history, hist_calls(), chunk=1, label="call histories", seed=ctx.seed, depth=depth)
-    if mF.extra["histories_with_an_earlier_non_corner_shift_on_the_same_detector"] < 50:
+    # vacuity guards only speak when nothing failed: a defect may legitimately cut an enumeration short (failing pipelines
+    # are recorded as failures, not counted as evaluated), and a recorded failure must never be pre-empted by "broken"
+    if ctx.tally.nfails == 0 and mF.extra["histories_with_an_earlier_non_corner_shift_on_the_same_detector"] < 50:
         raise Broken(f"history alphabet degenerate: {mF.extra['histories_with_an_earlier_non_corner_shift_on_the_same_detector']} histories with an earlier non-corner shift")
-    if mE.n < 4 * len(io_items):
+    if ctx.tally.nfails == 0 and mE.n < 4 * len(io_items):
         raise Broken(f"integer-origin part degenerate: {mE.n} pipelines for {len(io_items)} configurations")
     ctx.coverage.update(
         exhaustive=True,
